@@ -213,13 +213,7 @@ def _chunk(args):
     col = core.Collector()
     for k, ln in enumerate(lines):
         t = json.loads(ln)
-        try:
-            check_case(col, t, seed + k)
-        except np.linalg.LinAlgError as e:
-            import traceback
-
-            where = traceback.extract_tb(e.__traceback__)[-3:]
-            col.violation("raised:LinAlgError", f"{e!r} at {[(f.name, f.lineno) for f in where]} for {t['sys']}", {"transition": t, "seed": seed + k})
+        core.guarded(col, lambda: check_case(col, t, seed + k), "plscf", f"system {t['sys']}", {"transition": t, "seed": seed + k})
         col.traces += 1
     return col
 
@@ -253,7 +247,7 @@ def run(ctx):
     with mp.get_context("fork").Pool(16) as pool:
         for col in pool.map(_chunk, chunks):
             ctx.merge(col)
-    if ctx.extra.get("fully_judged", 0) < 0.25 * len(lines):
+    if ctx.violations == 0 and ctx.extra.get("fully_judged", 0) < 0.25 * len(lines):
         raise core.MachineryFailure(f"inconclusive: only {ctx.extra.get('fully_judged', 0)} of {len(lines)} cases were well enough "
                                     "conditioned to be judged")
     if not quick:
